@@ -1,6 +1,7 @@
 package rules
 
 import (
+	"go/token"
 	"fmt"
 	"go/constant"
 	"go/types"
@@ -189,6 +190,8 @@ func c06(c *Ctx) {
 	}
 	r.Floor("R6.4", n64, 4)
 	c.checkNoReaderGlobals()
+	c.R.Rule("R6.6", "a reader handed out by the size query is positioned at the start (same check as R4.7): the preload drains the stream the builder splices together, and a child reader left at its end contributes nothing — its blocks would never be fetched")
+	c.checkSizeQueryRewinds("R6.6")
 }
 
 func (c *Ctx) checkMustDrain(fn *ssa.Function) {
@@ -498,14 +501,59 @@ func (c *Ctx) checkWalkComplete(W *ssa.Function, fetch map[*ssa.Function]bool) {
 			header, itr = b, rv
 		}
 	}
+	// alternative loop form: an index loop `for i := 0; i < links.Length(); i++ { l := links.Lookup(i) … }`
+	var idxPhi *ssa.Phi
+	var idxList ssa.Value
 	if header == nil {
-		r.Violate("R6.3", key, pos, "no loop over the receiver's links driven by the links iterator's Done()")
+		for _, b := range W.Blocks {
+			iff := core.BlockIf(b)
+			if iff == nil {
+				continue
+			}
+			bo, ok := iff.Cond.(*ssa.BinOp)
+			if !ok || bo.Op != token.LSS {
+				continue
+			}
+			phi, ok := core.Unconv(bo.X).(*ssa.Phi)
+			if !ok || phi.Block() != b || !isCounterFromNonNeg(phi) {
+				continue
+			}
+			lc, ok := core.Unconv(bo.Y).(*ssa.Call)
+			if !ok {
+				continue
+			}
+			name, lrecv := methodCall(lc)
+			if name != "Length" || lrecv == nil {
+				continue
+			}
+			if p := c.accessPath(lrecv, 0); strings.Contains(p, "Links") && strings.HasPrefix(p, "param:"+recv.Name()) {
+				// the counter starts at 0 and steps by 1
+				okStep := true
+				for _, e := range phi.Edges {
+					if k, isK := core.ConstInt(e); isK {
+						okStep = okStep && k == 0
+					} else if add, isAdd := e.(*ssa.BinOp); isAdd {
+						k, isK := core.ConstInt(add.Y)
+						okStep = okStep && isK && k == 1
+					}
+				}
+				if okStep {
+					header, idxPhi, idxList = b, phi, lrecv
+				}
+			}
+		}
+	}
+	if header == nil {
+		r.Violate("R6.3", key, pos, "no loop over the receiver's links driven by the links iterator's Done() (or by an index running over their Length())")
 		return
 	}
 	iff := core.BlockIf(header)
 	exitIdx := 0 // successor taken when Done() is true
 	if _, neg := iff.Cond.(*ssa.UnOp); neg {
 		exitIdx = 1
+	}
+	if idxPhi != nil {
+		exitIdx = 1 // i < Length() false: the list is exhausted
 	}
 	exit := header.Succs[exitIdx]
 	bodyEntry := header.Succs[1-exitIdx]
@@ -591,6 +639,17 @@ func (c *Ctx) checkWalkComplete(W *ssa.Function, fetch map[*ssa.Function]bool) {
 				if name, rv := methodCall(call); name == "Next" && rv == itr {
 					link = extractOf(call, 1)
 					if link == nil {
+						link = call
+					}
+				}
+			}
+		}
+	}
+	if link == nil && idxPhi != nil {
+		for b := range inLoop {
+			for _, ins := range b.Instrs {
+				if call, ok := ins.(*ssa.Call); ok {
+					if name, rv := methodCall(call); name == "Lookup" && rv != nil && c.sameValue(rv, idxList) && len(call.Call.Args) >= 2 && core.Unconv(call.Call.Args[len(call.Call.Args)-1]) == ssa.Value(idxPhi) {
 						link = call
 					}
 				}
